@@ -1,9 +1,101 @@
 --------------------------- MODULE Known_Kernels ---------------------------
 (* Named deviation actions for the recorded known findings of property C14       *)
-(* (see /verif/known_findings.json).  Filled in below.                           *)
+(* (see /verif/known_findings.json).  A deviation is enabled only for the listed *)
+(* subjects and only under its semantic trigger, and it describes the WRONG      *)
+(* answer exactly (what the faulty code computes), so that any other wrong       *)
+(* answer of the same subject is still rejected.  The contract is stateless: a   *)
+(* deviation is a predicate on the event.                                        *)
 EXTENDS Kernels
 
-KnownIds == {}
-DevApplies(id, e, subj) == FALSE
-KnownDeviation(id, e, subj) == FALSE
+KnownIds == {"C14-KF1", "C14-KF2", "C14-KF3", "C14-KF4", "C14-KF5", "C14-KF6", "C14-KF7"}
+
+(* C14-KF1: io::simd_memory::search::sse42_strstr_short loads 16 bytes at every offset     *)
+(* although fewer than 16 bytes of the haystack remain: with the haystack ending at a page   *)
+(* end in front of an unmapped page the process dies with SIGSEGV (needles shorter than 16). *)
+StrstrSubjects == {"iosearch:find_pattern", "iosearch:sse42_strstr",
+                   "iosearch@default:find_pattern", "iosearch@sse42:find_pattern"}
+G1(e, subj) == /\ subj.subject \in StrstrSubjects
+               /\ e.op = "signal" /\ e.sig = 11 /\ e.in \in {"findsub_mut", "find_sub"}
+               /\ e.desc.ps = "g"                 \* the haystack ended at the guard page
+               /\ e.desc.nlen < 16 /\ e.desc.nlen >= 1
+KF1(e, subj) == G1(e, subj)
+
+(* C14-KF2: io::simd_memory::search::sse42_multi_search_impl truncates the character set to  *)
+(* its first 16 members inside the 16-byte main loop (the tail uses the whole set): a member  *)
+(* beyond the 16th is missed in every full chunk.                                            *)
+MultiSubjects == {"iosearch:find_any_of", "iosearch:sse42_multi_search",
+                  "iosearch@default:find_any_of", "iosearch@sse42:find_any_of"}
+TruncatedFindAny(h, cs) ==
+    LET full == (Len(h) \div 16) * 16
+        i == FindAnyOf(SubSeq(h, 1, full), SubSeq(cs, 1, 16))
+        j == FindAnyOf(SubSeq(h, full + 1, Len(h)), cs)
+    IN  IF i # NotFound THEN i ELSE IF j = NotFound THEN NotFound ELSE full + j
+G2(e, subj) == /\ subj.subject \in MultiSubjects
+               /\ e.op \in {"findany_mut", "find_any"} /\ Len(e.cs) > 16
+KF2(e, subj) ==
+    /\ G2(e, subj)
+    /\ IF e.op = "find_any" THEN e.r = OptOf(TruncatedFindAny(e.h, e.cs))
+       ELSE /\ Len(e.r) = Len(e.h) + 1
+            /\ \A p \in 1..Len(e.h) :
+                  e.r[p] = TruncatedFindAny([e.h EXCEPT ![p] = e.cs[((p - 1) % Len(e.cs)) + 1]], e.cs)
+            /\ e.r[Len(e.h) + 1] = TruncatedFindAny(e.h, e.cs)
+
+(* C14-KF3: zipora::string::simd_search::sse42_strcmp orders strings of different lengths   *)
+(* by LENGTH first (documented as a lexicographic comparison; the repository's own test       *)
+(* test_strcmp_different_lengths pins "short" < "longer").                                    *)
+G3(e, subj) == /\ subj.subject \in {"strsearch:sse42_strcmp", "strsearch@instance:sse42_strcmp"}
+               /\ e.op = "compare" /\ Len(e.a) # Len(e.b)
+KF3(e, subj) == G3(e, subj) /\ e.r = Sign(Len(e.a) - Len(e.b))
+
+(* C14-KF4: hash_map::simd_string_ops::fast_string_hash absorbs the remainder behind the last *)
+(* full 32-byte block byte by byte in its AVX2 path, the portable path in 8-byte words: the    *)
+(* value of one string depends on the CPU tier for lengths >= 32 with a remainder >= 8.        *)
+BlockHash(s, base, blk) ==
+    LET full == (Len(s) \div blk) * blk
+    IN  HashBytes(HashWords(base, SubSeq(s, 1, full), 1), s, full + 1)
+G4(e, subj) == /\ subj.subject = "hashmap:fast_string_hash"
+               /\ e.op = "strhash" /\ Len(e.s) >= 32 /\ Len(e.s) % 32 >= 8
+KF4(e, subj) == G4(e, subj) /\ e.r = BlockHash(e.s, e.base, 32)
+
+(* C14-KF5: entropy::bit_ops::zero_high_bits32/64 pass the index to BZHI, which reads only    *)
+(* its low 8 bits: an index >= 256 keeps (index mod 256) bits instead of everything (the       *)
+(* software path keeps everything for index >= width).                                         *)
+G5(e, subj) == /\ subj.subject = "bitops@hw"
+               /\ e.op = "bzhi" /\ e.n >= 256
+KF5(e, subj) == G5(e, subj) /\ e.r = ZeroHighBits(e.x, e.w, e.n % 256)
+
+(* fsa::fast_search::FastSearchEngine takes its rank-select strategy when forced, and by     *)
+(* default (adaptive, rank_select_threshold = 36) for every buffer of 36 bytes or more.       *)
+UsesRankSelect(e, subj) ==
+    \/ subj.subject = "fastsearch@ranksel"
+    \/ subj.subject = "fastsearch@default" /\ Len(e.h) >= 36
+(* C14-KF6: search_rank_select asks select1(i) for i = 1..count although select1 counts from  *)
+(* 0: the first occurrence is dropped (the failing last query is ignored).                    *)
+G6(e, subj) == UsesRankSelect(e, subj) /\ e.op = "positions" /\ Len(PositionsOf(e.h, e.c)) >= 1
+KF6(e, subj) == G6(e, subj) /\ e.r = Tail(PositionsOf(e.h, e.c))
+
+(* C14-KF7: the rank-select cache is validated by a hash of the data only, not by the target  *)
+(* byte: the same buffer asked for another byte answers for the byte asked first (the         *)
+(* histogram case clears the cache and then asks 0, 1, …, 255).                               *)
+G7(e, subj) == UsesRankSelect(e, subj) /\ e.op = "histogram" /\ Len(e.h) >= 1
+KF7(e, subj) == G7(e, subj) /\ e.r = [v \in 1..256 |-> CountByte(e.h, 0)]
+
+(* guard (state predicate) and action of each deviation.  In KF mode a deviation whose   *)
+(* guard holds REPLACES the contract action for that event.                               *)
+DevApplies(id, e, subj) ==
+    \/ id = "C14-KF1" /\ G1(e, subj)
+    \/ id = "C14-KF2" /\ G2(e, subj)
+    \/ id = "C14-KF3" /\ G3(e, subj)
+    \/ id = "C14-KF4" /\ G4(e, subj)
+    \/ id = "C14-KF5" /\ G5(e, subj)
+    \/ id = "C14-KF6" /\ G6(e, subj)
+    \/ id = "C14-KF7" /\ G7(e, subj)
+KnownDeviation(id, e, subj) ==
+    \/ id = "C14-KF1" /\ KF1(e, subj)
+    \/ id = "C14-KF2" /\ KF2(e, subj)
+    \/ id = "C14-KF3" /\ KF3(e, subj)
+    \/ id = "C14-KF4" /\ KF4(e, subj)
+    \/ id = "C14-KF5" /\ KF5(e, subj)
+    \/ id = "C14-KF6" /\ KF6(e, subj)
+    \/ id = "C14-KF7" /\ KF7(e, subj)
 =============================================================================
